@@ -513,8 +513,13 @@ def run(chk: Check):
                         "cancel the awaiting task, leave the block, advance the clock, matching message) replayed on a virtual-time event loop")
     chk.assumptions += ["a waiter whose coroutine was cancelled but whose timeout has not elapsed may or may not still withhold a message (left open)",
                         "asyncio time is virtual (loop.time overridden); one model clock unit = 5 s"]
+    from . import growth_taskscheduler
     if chk.tier == "quick":
         _waiters(chk, 2, 6, "n2-d6")
+        growth_taskscheduler.section(chk, 2, 4, max_pairs=3000)
     else:
         _waiters(chk, 2, 8, "n2-d8")
         _waiters(chk, 3, 7, "n3-d7")
+        growth_taskscheduler.section(chk, 2, 5, max_pairs=40000)
+    chk.cov["rule"] += ("; task scheduler: every edge of the bounded TaskScheduler model (schedule with any scope, finish, session closed, "
+                        "main region changed, addon module unloaded, shutdown) replayed through BaseAddon._schedule_task and the AddonManager call sites")
